@@ -113,6 +113,9 @@ class ValueFactory:
                  for kv in v["kvs"]}
             self.back[id(o)] = (o, v)
             return o
+        if t == "builtin":
+            import builtins
+            return getattr(builtins, v["n"])
         if t == "obj":
             o = {"plain": Plain, "html": Html, "falsy": Falsy}[v["kind"]]()
             self.back[id(o)] = (o, v)
